@@ -232,16 +232,16 @@ pub fn check_case(rep: &mut Report, rig: &Rig, cfg: &ClientCfg, row: &Row, form:
             }
             let line = emits[0].clone();
             let pieces = reffmt::expected(cfg, row, key, &vals, &sec);
-            if let Err(why) = reffmt::matches(&line, &pieces) {
-                let props = classify(&line, cfg, row, key, &vals, &sec);
-                violation(rep, props, "line-differs", format!("line {:?} is not the expected {:?}: {}", clip(&line), clip(&render(&pieces)), clip(&why)), case());
-                return Some(line);
-            }
-            // the returned metric is the emitted text
+            // the returned metric is the text the sink accepted (whatever that text is)
             if let Some(Ok(text)) = &res {
                 if *text != line {
                     violation(rep, vec!["C03", "C01"], "returned-text-differs", format!("returned metric {:?} differs from the emitted line {:?}", text, line), case());
                 }
+            }
+            if let Err(why) = reffmt::matches(&line, &pieces) {
+                let props = classify(&line, cfg, row, key, &vals, &sec);
+                violation(rep, props, "line-differs", format!("line {:?} is not the expected {:?}: {}", clip(&line), clip(&render(&pieces)), clip(&why)), case());
+                return Some(line);
             }
             if let Some(Err(f)) = &res {
                 violation(rep, vec!["C03"], "error-on-accept", format!("the sink accepted the line but the call returned {:?}", f), case());
@@ -357,8 +357,12 @@ pub fn run_c01(spec: &crate::Spec) -> Report {
     let row = &ROWS[spec.usize("row", 0)];
     let form = form_of(&spec.str("form", "try"));
     let dirty = spec.usize("dirty", 0) == 1;
+    // strings that begin or end with white space (the line's last component ends in it)
+    let ws = spec.usize("ws", 0) == 1;
     let prefixes: Vec<&str> = if dirty {
         vec!["a:b", "a|b#c", "x,y@z\nw"]
+    } else if ws {
+        vec!["p", " p "]
     } else if thorough {
         vec!["", "p", "p.", "p..", ".", "..", "a.b", "é", "p q"]
     } else {
@@ -366,6 +370,8 @@ pub fn run_c01(spec: &crate::Spec) -> Report {
     };
     let keys: Vec<&str> = if dirty {
         vec!["k:1", "k|c", "k\n"]
+    } else if ws {
+        vec!["k", "k "]
     } else if thorough {
         vec!["k", "", "a.b", "ключ", "k k"]
     } else {
@@ -373,12 +379,20 @@ pub fn run_c01(spec: &crate::Spec) -> Report {
     };
     let tags_alpha: Vec<Step> = if dirty {
         vec![Step::Tag("t:1".into(), "v,2".into()), Step::TagValue("#b|".into())]
+    } else if ws {
+        vec![Step::Tag("k".into(), "v ".into()), Step::TagValue("b\t".into()), Step::TagValue(" ".into()), Step::Tag(" k".into(), "v\r\n".into())]
     } else {
         tag_alpha(if thorough { 4 } else { 3 })
     };
     let tag_lists = sequences(&tags_alpha, if thorough { 3 } else { 2 });
     let rates: Vec<Option<f64>> = if thorough { vec![None, Some(0.5), Some(1.0), Some(1e-7), Some(0.0)] } else { vec![None, Some(0.5), Some(1.0), Some(1e-7)] };
-    let containers: Vec<Option<&str>> = if dirty { vec![None, Some("c|1")] } else { vec![None, Some("c1")] };
+    let containers: Vec<Option<&str>> = if dirty {
+        vec![None, Some("c|1")]
+    } else if ws {
+        vec![None, Some("c1 "), Some(" ")]
+    } else {
+        vec![None, Some("c1")]
+    };
     let stamps: Vec<Option<u64>> = if thorough { vec![None, Some(0), Some(1), Some(u64::MAX)] } else { vec![None, Some(0), Some(u64::MAX)] };
     let vals = values_for(row.vt, thorough);
     for prefix in &prefixes {
@@ -449,7 +463,7 @@ pub fn run_c04(spec: &crate::Spec) -> Report {
     let packed = vals.iter().rev().find(|v| reffmt::values(row, v).is_ok()).unwrap().clone();
     for prefix in ["p", ""] {
         for dl in &dlists {
-            for dc in [None, Some("dc")] {
+            for dc in [None, Some("dc"), Some("default-container-id")] {
                 let cfg = ClientCfg {
                     prefix: prefix.to_string(),
                     tags: dl.clone(),
@@ -469,10 +483,17 @@ pub fn run_c04(spec: &crate::Spec) -> Report {
                             continue;
                         }
                         for tl in &tag_lists {
-                            for pc in [None, Some("pc")] {
+                            // per-call container ids: as long as, shorter than (also empty) and longer
+                            // than the default, and one replaced by a second per-call id
+                            for pc in [None, Some("pc"), Some(""), Some("x"), Some("a-long-per-call-container"), Some("TWICE")] {
                                 let mut others = vec![];
                                 if let Some(pc) = pc {
-                                    others.push(Step::Container(pc.to_string()));
+                                    if pc == "TWICE" {
+                                        others.push(Step::Container("first-per-call-id".to_string()));
+                                        others.push(Step::Container("2nd".to_string()));
+                                    } else {
+                                        others.push(Step::Container(pc.to_string()));
+                                    }
                                     rep.flag("per-call-container");
                                 }
                                 if thorough {
